@@ -557,7 +557,49 @@ func c12EvalCLI(c *Ctx, dir string, idx int, cs c12Case) (out c10Out) {
 	}
 	if len(lats) >= 20000 {
 		// long inputs also go through periodic reporting: the last document written is the final
-		// report and its buckets hold every result
+		// report and its buckets hold every result. The first third of the results is put into the
+		// first bucket, so that early renderings (one long bar) are not shorter than later ones.
+		lats = append([]int64{}, lats...)
+		for i := 0; i < len(lats)/3; i++ {
+			lats[i] = bounds[0]
+		}
+		want, _ = c12Ref(bounds, lats)
+		in = filepath.Join(dir, fmt.Sprintf("c12-%d.periodic.%s", idx, cs.Format))
+		if err := c10WriteResults(in, cs.Format, c11Results(lats), nil); err != nil {
+			out.Incon = "cannot write input file: " + err.Error()
+			return
+		}
+		defer os.Remove(in)
+		{
+			// text rendering, periodic: the file is a sequence of whole reports, the last one final
+			of := filepath.Join(dir, fmt.Sprintf("c12-%d.every.txt", idx))
+			defer os.Remove(of)
+			argv := []string{"report", "-type=hist", "-buckets", cs.Spec, "-every", "1ms", "-output", of, in}
+			so, se, exit, to, err := c10RunVegeta(c, argv...)
+			out.count("cli_runs", 1)
+			wit := c12Witness{Case: cs.forWitness(), Level: "cli-hist-buckets-every", Want: want, Argv: argv[:len(argv)-1], Stderr: c12Trunc(se)}
+			switch {
+			case to || err != nil:
+				out.Incon = fmt.Sprintf("vegeta %v did not run to completion: timeout=%v err=%v", argv[:len(argv)-1], to, err)
+			case exit != 0:
+				wit.Clause, wit.Output = "cli-exit", c12Trunc(so)
+				out.violate("C12/cli/rejected", fmt.Sprintf("vegeta %q exits with %d: %s", argv[:len(argv)-1], exit, strings.TrimSpace(se)), wit)
+			default:
+				b, _ := os.ReadFile(of)
+				text := string(b)
+				reports := strings.Count(text, "Bucket")
+				if k := strings.LastIndex(text, "Bucket"); k >= 0 {
+					text = text[k:]
+				}
+				out.count("cli_every_text_reports", int64(reports))
+				clause, msg := c12CheckText(text, bounds, want)
+				out.count("cli_reports_checked", 1)
+				if clause != "" {
+					wit.Clause, wit.Output = clause, c12Trunc(text)
+					out.violate("C12/cli/"+clause+"/periodic", fmt.Sprintf("vegeta %q, last of %d reports in the output file: %s", argv[:len(argv)-1], reports, msg), wit)
+				}
+			}
+		}
 		of := filepath.Join(dir, fmt.Sprintf("c12-%d.every.json", idx))
 		defer os.Remove(of)
 		argv := []string{"report", "-type=json", "-buckets", cs.Spec, "-every", "1ms", "-output", of, in}
@@ -585,6 +627,10 @@ func c12EvalCLI(c *Ctx, dir string, idx int, cs c12Case) (out c10Out) {
 					break
 				}
 				last, docs = d, docs+1
+			}
+			if rest := bytes.TrimSpace(b[dec.InputOffset():]); len(rest) > 0 {
+				wit.Clause, wit.Output = "trailing-garbage", c12Trunc(string(rest))
+				out.violate("C12/cli/json-shape/periodic-trailing-garbage", fmt.Sprintf("vegeta %q: after %d JSON documents the output file goes on with %d bytes that are no document: %q", argv[:len(argv)-1], docs, len(rest), c12Trunc(string(rest[:min(len(rest), 80)]))), wit)
 			}
 			out.count("cli_every_documents", int64(docs))
 			if docs > 1 {
